@@ -12,11 +12,52 @@
 #include <sys/stat.h>
 #include <stdlib.h>
 #include <string.h>
+#include <dlfcn.h>
+#include <errno.h>
+#include <map>
 #include "hexio.h"
 using namespace hx;
+
+// ---- fault injection for the temporary upload files (fi cases): the libc calls file_buffer makes are interposed here
+static std::string tmpdir;                      // the upload directory of this harness process
+static std::string g_fault_dir;                 // faults are injected only while this is set (fi cases)
+static std::map<FILE *, long> g_tracked;        // FILE -> bytes written so far
+static long g_quota = -1;                       // q<N>: an fwrite that takes a file beyond N bytes fails (ENOSPC, persistent)
+static bool g_fopen_fails = false, g_fflush_fails = false, g_fclose_fails = false;
+extern "C" FILE *fopen(const char *p, const char *m)
+{
+	typedef FILE *(*fn)(const char *, const char *); static fn real = (fn)dlsym(RTLD_NEXT, "fopen");
+	bool mine = !tmpdir.empty() && strncmp(p, tmpdir.c_str(), tmpdir.size()) == 0;     // every upload file is tracked, always
+	if (mine && !g_fault_dir.empty() && g_fopen_fails) { errno = ENOSPC; return 0; }
+	FILE *f = real(p, m);
+	if (f && mine) g_tracked[f] = 0;
+	return f;
+}
+extern "C" size_t fwrite(const void *b, size_t sz, size_t n, FILE *f)
+{
+	typedef size_t (*fn)(const void *, size_t, size_t, FILE *); static fn real = (fn)dlsym(RTLD_NEXT, "fwrite");
+	std::map<FILE *, long>::iterator it = g_tracked.find(f);
+	if (it != g_tracked.end() && g_quota >= 0 && it->second + (long)(sz * n) > g_quota) { errno = ENOSPC; return 0; }
+	size_t r = real(b, sz, n, f);
+	if (it != g_tracked.end()) it->second += (long)(r * sz);
+	return r;
+}
+extern "C" int fflush(FILE *f)
+{
+	typedef int (*fn)(FILE *); static fn real = (fn)dlsym(RTLD_NEXT, "fflush");
+	if (f && g_tracked.count(f) && g_fflush_fails) { errno = ENOSPC; return EOF; }
+	return real(f);
+}
+extern "C" int fclose(FILE *f)
+{
+	typedef int (*fn)(FILE *); static fn real = (fn)dlsym(RTLD_NEXT, "fclose");
+	bool mine = g_tracked.erase(f) > 0;
+	int r = real(f);                          // the descriptor is released whatever is reported
+	if (mine && g_fclose_fails) { errno = EIO; return EOF; }
+	return r;
+}
 typedef cppcms::impl::multipart_parser mparser;
 
-static std::string tmpdir;
 
 static int count_dir()
 {
@@ -32,8 +73,11 @@ static int count_dir()
 }
 
 // descriptors open on a file inside the upload directory (removed-but-open files included)
+static int g_base_probe=-1;   // lowest free descriptor number while no upload file is open (single-threaded process)
 static int count_fds()
 {
+	// fast path: no descriptor was opened (and left open) since start <=> the lowest free number is unchanged
+	{ int p=dup(0); if(p>=0) close(p); if(g_base_probe>=0 && p==g_base_probe && g_tracked.empty()) return 0; }
 	int n=0;
 	DIR *d=opendir("/proc/self/fd");
 	if(!d) return -1;
@@ -64,6 +108,7 @@ static std::string slurp(cppcms::http::file &f)
 }
 
 struct run_result {
+	std::string sizes;   // fi: name size readable per completed file
 	std::string status;
 	std::string files;   // canonical text of the completed files
 	int nfiles;
@@ -139,6 +184,7 @@ static run_result run(long mem,std::string const &ct,std::string const &body,std
 			std::string data=slurp(*files[i]);
 			if((long long)data.size()!=sz) R.size_mismatch=true;
 			fs<<" "<<hex(files[i]->name())<<" "<<hex(files[i]->filename())<<" "<<hex(files[i]->mime())<<" "<<hex(data);
+			{ std::ostringstream z; z<<" "<<hex(files[i]->name())<<":"<<sz<<":"<<data.size(); R.sizes+=z.str(); }
 		}
 		R.nfiles=files.size();
 		R.files=fs.str();
@@ -159,6 +205,7 @@ int main()
 		tmpdir=ss.str();
 		mkdir(tmpdir.c_str(),0700);
 	}
+	{ int p=dup(0); if(p>=0) close(p); g_base_probe=p; }
 	std::string line;
 	while(std::getline(std::cin,line)) {
 		alarm(300); // watchdog: a case that hangs kills the harness, the check reports the case after the last answered one
@@ -172,6 +219,24 @@ int main()
 			else {
 				out<<"mp "<<R.status<<" "<<R.nfiles<<R.files<<" cur="<<R.cur<<" T "<<R.trace<<" tmp="<<R.tmp_alive<<","<<R.tmp_after<<" fd="<<R.fd_alive<<","<<R.fd_after;
 				if(R.size_mismatch) out<<" SIZE-MISMATCH";
+			}
+		}
+		else if((v.size()==6 || v.size()==7) && v[0]=="fi") {
+			// fi <mem> <ct-hex> <cuts> <body-hex> <faults>: q<N> quota per file | o fopen fails | s fflush fails | c fclose reports an error
+			long mem=atol(v[1].c_str());
+			std::string ct=unhex(v[2]), body=unhex(v[4]);
+			g_quota=-1; g_fopen_fails=g_fflush_fails=g_fclose_fails=false;
+			{ std::string t; std::istringstream ss(v[5]); while(std::getline(ss,t,'.')) { if(t.empty()) continue;
+				if(t[0]=='q') g_quota=atol(t.c_str()+1); else if(t[0]=='o') g_fopen_fails=true; else if(t[0]=='s') g_fflush_fails=true; else if(t[0]=='c') g_fclose_fails=true; } }
+			g_fault_dir=tmpdir;
+			run_result R=run(mem,ct,body,parse_cuts(v[3],body.size()),false);
+			g_fault_dir.clear(); g_quota=-1; g_fopen_fails=g_fflush_fails=g_fclose_fails=false;
+			if(R.status=="refused") out<<"fi refused";
+			else {
+				std::string cursz="none"; if(R.cur!="none") cursz=R.cur.substr(R.cur.rfind(':')+1);
+				out<<"fi "<<R.status<<" "<<R.nfiles<<R.sizes<<" cur="<<cursz<<" tmp="<<R.tmp_alive<<","<<R.tmp_after<<" fd="<<R.fd_alive<<","<<R.fd_after;
+				// whatever was left behind must not distort the next case
+				if(R.tmp_after>0) { std::string cmd="rm -f '"+tmpdir+"'/*"; if(system(cmd.c_str())) {} }
 			}
 		}
 		else if((v.size()==4 || v.size()==5) && v[0]=="all2") {
